@@ -5,3 +5,7 @@ cd "$(dirname "$0")"
 export CARGO_NET_OFFLINE=true
 mkdir -p evidence replays target
 ./check --build-all
+# Miri lanes of C14 (separate target dirs because the two lanes use different RUSTFLAGS)
+( cd harness-miri && cp -f /repo/Cargo.lock . 2>/dev/null || true
+  CARGO_TARGET_DIR=../target/miri-scalar MIRIFLAGS="-Zmiri-disable-isolation" cargo +nightly miri run --offline --quiet -- 1 1
+  RUSTFLAGS="-Ctarget-feature=+avx2" CARGO_TARGET_DIR=../target/miri-avx2 MIRIFLAGS="-Zmiri-disable-isolation" cargo +nightly miri run --offline --quiet -- 1 1 )
